@@ -1,6 +1,6 @@
 (* C10 — flood closes exactly the short gaps and never loses or overlaps time.
    Property statements only: each theorem is closed by [exact <lemma>] and followed by
-   Print Assumptions.  Model: Model/Flood.v; proofs: Proofs/FloodStep.v, Proofs/FloodWalk.v, Proofs/FloodGaps.v.
+   Print Assumptions.  Model: Model/Flood.v; proofs: Proofs/FloodStep.v, Proofs/FloodWalk.v, Proofs/FloodGaps.v, Proofs/FloodFixed.v.
 
    Vocabulary (Proofs/FloodStep.v): instants and durations are integer microseconds;
      ev_ok e            := 0 <= dur e /\ ts e mod 1000 = 0 /\ dur e mod 1000 = 0
@@ -14,7 +14,7 @@
    timestamp it is given to the millisecond), and after flood's own stable sort by start
    the events do not overlap.  The pulsetime p is any integer number of microseconds (the
    statements do not need p >= 0: below 0 no gap qualifies). *)
-From AwVerif Require Import Base.Prelude Model.Flood Proofs.FloodStep Proofs.FloodWalk Proofs.FloodGaps.
+From AwVerif Require Import Base.Prelude Model.Flood Proofs.FloodStep Proofs.FloodWalk Proofs.FloodGaps Proofs.FloodFixed.
 
 (* The domain, spelled out. *)
 Theorem C10_domain_unfold : forall l,
@@ -126,6 +126,35 @@ Theorem C10_outputs_are_inputs : forall l p o,
   exists e, In e l /\ eid o = eid e /\ data o = data e.
 Proof. exact flood_origin. Qed.
 Print Assumptions C10_outputs_are_inputs.
+
+(* ---- normal form (Proofs/FloodFixed.v) ----
+   gapped p lo l : every gap of l (the first measured from lo) is 0 or longer than p, durations >= 0
+   settled p l   : gapped from its own first start, and every duration positive.
+   The output of flood is settled for the pulsetime it was called with: neighbours touch or are
+   more than p apart (this is "every gap of at most the pulsetime has been closed" said about the
+   output list itself rather than about points in time) ... *)
+Theorem C10_output_settled : forall l p,
+  0 <= p -> flood_domain l -> settled p (flood l p).
+Proof. exact flood_settled. Qed.
+Print Assumptions C10_output_settled.
+
+(* ... every settled list is returned unchanged (nothing is moved, merged or dropped when there
+   is no short gap to close) ... *)
+Theorem C10_settled_fixed_point : forall l p,
+  0 <= p -> settled p l -> flood l p = l.
+Proof. exact flood_fixed_point. Qed.
+Print Assumptions C10_settled_fixed_point.
+
+(* ... hence flood is idempotent on its domain. *)
+Theorem C10_idempotent : forall l p,
+  0 <= p -> flood_domain l -> flood (flood l p) p = flood l p.
+Proof. exact flood_idempotent. Qed.
+Print Assumptions C10_idempotent.
+
+Example C10_settled_nonvacuous :
+  let e i t d x := mkEvent (Some i) t d x in
+  settled 2000 [e 0 0 5000 1; e 2 5000 7000 1; e 3 12000 1000 2; e 4 16000 1000 2].
+Proof. cbv zeta. split; [cbn [gapped]; unfold eend; cbn [ts dur]; lia|repeat constructor; cbn [dur]; lia]. Qed.
 
 (* The millisecond-grid hypothesis cannot be dropped: Event floors assigned timestamps to the
    millisecond but keeps durations to the microsecond, so with one duration off the grid
